@@ -10,9 +10,12 @@
 // before RemoveLink) are released one at a time in the order of the
 // behaviour, with real Peering and LinkBase objects over in-memory
 // connections. Stage T: seeded churn among 2..5 routers without gates (the
-// hooks only perturb timing). At every quiescent point the real registry
-// (by-peer, by-label, GetLinks, routing table) is recorded and judged by TLC
-// (LinkRegistry_Trace).
+// hooks only perturb timing). Stage T-learned (learned.go): the same churn
+// among routers whose router subsystem is alive - real announcements and
+// disconnect pings over the real links between establishment and close - so
+// that the tables hold learned routes when links go. At every quiescent point
+// the real registry (by-peer, by-label, GetLinks, routing table) is recorded
+// and judged by TLC (LinkRegistry_Trace).
 package main
 
 import (
@@ -861,10 +864,21 @@ func actsString(acts []act) string {
 var reAct = regexp.MustCompile(`^/\\ act = \[(.*)\]$`)
 var reQ = regexp.MustCompile(`^/\\ phase = `)
 
+type origin struct {
+	shape string
+	acts  []act
+}
+
 func run0(c *vf.Ctx) {
-	c.Rule("M: TLC exhaustive on LinkRegistry: cross-connect of 2 routers (2 and 3 connections), 3 routers with a label race (3 and, thorough, 4 connections), every step of set-up and close of every link interleaved; the registry as first written must be refuted. R: a path cover of the complete state graph of the cross shape (quick: the 160 paths with most refusals/closes + seeded sample; thorough: all) and TLC simulation walks of the 3-router shape are enforced on real goroutines by blocking hooks at the model's action boundaries; at every quiescent state the real by-peer/by-label tables, GetLink/GetLinkByLabel/GetLinks and the routing table are recorded. T: seeded churn (connect, simultaneous cross-connect, close local/remote, broken connection) among 2..5 routers without gates, timing perturbed inside the hooks. All snapshots judged by TLC. distinct = distinct enforced behaviours + churn rounds")
+	c.Rule("M: TLC exhaustive on LinkRegistry: cross-connect of 2 routers (2 and 3 connections), 3 routers with a label race (3 and, thorough, 4 connections), every step of set-up and close of every link interleaved; the registry as first written must be refuted. R: a path cover of the complete state graph of the cross shape (quick: the 160 paths with most refusals/closes + seeded sample; thorough: all) and TLC simulation walks of the 3-router shape are enforced on real goroutines by blocking hooks at the model's action boundaries; at every quiescent state the real by-peer/by-label tables, GetLink/GetLinkByLabel/GetLinks and the routing table are recorded. T: seeded churn (connect, simultaneous cross-connect, close local/remote, broken connection) among 2..5 routers without gates, timing perturbed inside the hooks. T-learned: the churn among 3..5 routers that announce themselves and send disconnect pings over their real links between establishment and close (real handlers write peer, gossip routes and remove them), ending with every link closed. All snapshots judged by TLC. distinct = distinct enforced behaviours + churn rounds")
 	c.Assume("in-memory connections; a close in the middle of a set-up only comes from the set-up itself")
 	world.InstallLogCapture()
+	if os.Getenv("VERIF_C16_ONLY") == "learned" { // development aid: this stage alone (never a complete check)
+		levs, lorg := learnedStage(c, rand.New(rand.NewSource(c.Seed)))
+		judge(c, levs, lorg)
+		c.Broken("VERIF_C16_ONLY is set: only stage T-learned was run")
+		return
+	}
 
 	// ---- M
 	mcs := []struct {
@@ -890,10 +904,6 @@ func run0(c *vf.Ctx) {
 	}
 
 	var allEvents []any
-	type origin struct {
-		shape string
-		acts  []act
-	}
 	var origins []origin // one per snapshot event
 	nDriftRuns := 0
 	execute := func(shName string, acts []act, q []bool) {
@@ -1055,6 +1065,12 @@ func run0(c *vf.Ctx) {
 		c.Broken("only %d snapshots were taken", len(allEvents))
 	}
 
+	// ---- T-learned: the churn with the routers' router subsystem alive (announcements and disconnect pings between
+	// establishment and close): the tables hold learned routes when links go
+	levs, lorg := learnedStage(c, rng)
+	allEvents = append(allEvents, levs...)
+	origins = append(origins, lorg...)
+
 	// ---- registry functions frozen at their calls into a link while the link is closed
 	for _, ev := range yieldStage(c) {
 		tag := fmt.Sprint(ev.(map[string]any)["tag"])
@@ -1064,6 +1080,11 @@ func run0(c *vf.Ctx) {
 
 	// ---- verdict by TLC
 	c.Stage("R", map[string]any{"cover_paths": total, "executed": len(ps), "walks": nw, "churn_rounds": rounds, "snapshots": len(allEvents), "drift_runs": nDriftRuns})
+	judge(c, allEvents, origins)
+}
+
+// judge gives all records to TLC (LinkRegistry_Trace) and reports what it rejects.
+func judge(c *vf.Ctx, allEvents []any, origins []origin) {
 	base := 0
 	events := allEvents
 	for len(events) > 0 {
@@ -1082,7 +1103,11 @@ func run0(c *vf.Ctx) {
 		if why == "" {
 			why = "inconsistent"
 		}
-		c.Violation(vf.Key(why, o.shape), fmt.Sprintf("router %v at a quiescent point (%v): %s: live %v by-peer %v by-label %v peer routes %v next hops %v [behaviour: %s]", ev["router"], ev["tag"], why, ev["live"], ev["bypeer"], ev["bylabel"], ev["routes"], ev["nexthops"], actsString(o.acts)),
+		learned := ""
+		if lr, ok := ev["learned"]; ok {
+			learned = fmt.Sprintf(" learned routes %v", lr)
+		}
+		c.Violation(vf.Key(why, o.shape), fmt.Sprintf("router %v at a quiescent point (%v): %s: live %v by-peer %v by-label %v peer routes %v next hops %v%s [behaviour: %s]", ev["router"], ev["tag"], why, ev["live"], ev["bypeer"], ev["bylabel"], ev["routes"], ev["nexthops"], learned, actsString(o.acts)),
 			map[string]any{"snapshot": ev, "shape": o.shape, "behaviour": actsString(o.acts)}, nil)
 		base += rejectAt
 		events = events[rejectAt:]
